@@ -15,7 +15,7 @@ CHECKS = {
          'exhaustively; TLC prints every state with its observation table and every edge, each edge is replayed on real Grids (cold and warm id '
          'index) and all observations compared; seeded random histories (two live grids: the parent of a derivation stays parked and the history switches between them) are validated by Trace_GridSeq.tla.',
     ref='DESIGN.md 5/C14', technique='TLA+ spec GridSeq + TLC exhaustive model check; TLC state/edge generation replayed on the code; TLC trace validation',
-    note='rows identified by object identity over a small alphabet; MaxLen 3 in the exhaustive part; slice assignment not claimed'),
+    note='rows identified by object identity over a small alphabet; MaxLen 3 in the exhaustive part; slice assignment g[a:b] = rows follows the list model with an atomic refusal (ops setslice / setslice_row)'),
  'C15': dict(
     text='Same GridSeq engine: after every replayed edge and every event of every random history, g[key] and g.get(key) for str/int/Ref keys '
          'must return a row the model\'s scan LookupAllowed(rows, key) permits, else KeyError/default.',
@@ -61,7 +61,7 @@ CHECKS = {
     text='The characters hszinc emits are the trace: every dumped document is run, code point by code point, through the strict reader machine spec/ZincRead.tla (written from the ZINC grammar, '
          'sharing nothing with hszinc) which must accept it and read back exactly Abs(g).',
     ref='DESIGN.md 5/C04, Appendix A', technique='TLA+ character-level reader machine ZincRead (strict mode) executed by TLC over hszinc\'s output; layout plans generated by TLC',
-    note='the strict reader accepts the spellings pinned by the repository\'s dumper tests (hex(..)/b64(..) lower-case types, {marker:M}); grid domain as C01'),
+    note='the strict reader accepts the spellings pinned by the repository\'s dumper tests (hex(..)/b64(..) lower-case types, {marker:M}, <<ver without a newline after <<) and refuses string escapes in a URI; grid domain as C01'),
 
  'C03': dict(
     text='spec/ZincWrite.tla is an independent grammar-directed writer (spelling styles for numbers, escapes, time fractions, date-time case/zone, coordinates, separators, CRLF, '
@@ -79,11 +79,11 @@ CHECKS = {
 
  'C10': dict(
     text='spec/Gate.tla: the grid as a gate machine (version, given, stored kinds) with Accepts(version, kind) decided through Version.tla\'s nearest official version; TLC enumerates every declared '
-         'version x every sequence of <=2 stores (12 public entry paths x 6 kinds) and the constructor paths, checks the gate invariant on the model and prints the expected outcome of each step; every '
-         'case is replayed on a real Grid (outcome, version after, refused store leaves the grid unchanged).  The accept/refuse decision of the five deciders (grid, ZINC/JSON writer, ZINC/JSON reader) '
+         'version x every sequence of <=2 stores (30 public entry paths, incl. column metadata handed over as a plain dict or a fresh metadata object and stores into deep copies, x 6 kinds) and the constructor paths, checks the gate invariant on the model and prints the expected outcome of each step; every '
+         'case is replayed on a real Grid (outcome, version after, refused store leaves the grid unchanged).  The accept/refuse decision of the deciders (grid, ZINC/JSON writer, ZINC/JSON reader, both scalar readers, nested grids, grids that came out of a reader, writers given a grid edited behind the gate) '
          'for 6 versions x 5 kinds is recorded and judged by TLC (Trace_Gate.tla).  GridSeq additionally carries GateInv through arbitrary row-operation histories.',
     ref='DESIGN.md 5/C10', technique='TLA+ spec Gate (+Version.Nearest) enumerated by TLC, every case replayed on the code; TLC-judged decision table of the five deciders',
-    note='pre-3.0 = nearest official version < 3.0 (pinned by the repository tests); in-place edits of dicts already handed to the grid are outside the API'),
+    note='pre-3.0 = nearest official version < 3.0 (pinned by the repository tests); in-place edits of row dicts already handed to the grid are outside the API (the writers still refuse them); a repeated tag name in ZINC metadata is undefined (not judged)'),
 
  'C08': dict(
     text='Exhaustive sweeps on the real code judged by TLC: every code point (quick: all below U+3000, every 64th above, boundaries; thorough: all 1,114,112; thorough also URI/Ref-display/XStr positions) in a string '
@@ -99,7 +99,7 @@ CHECKS = {
          'spec/FilterLex.tla reads filter TEXT by characters (recursive descent) and gives every literal the value the ZINC reader machine (ZincRead.tla) assigns to its characters; '
          'seeded filters over spelling variants of every literal kind on grids with Ref ids and near-equal values are judged by Trace_FilterLex.tla.',
     ref='DESIGN.md 5/C11, 11.6', technique='TLA+ specs FilterSem (parser machine + semantics) and FilterLex (character-level reader, literal values via ZincRead) checked with TLC; TLC-generated filters and expected selections replayed on Grid.filter; TLC trace judgement of random filters',
-    note='!= between different kinds and tags mapped to None are not constrained; comparisons between kindred kinds (bool/number/quantity, str/uri/bin, date/date-time) only required not to raise; literal kinds outside the Haystack filter grammar may be refused'),
+    note='a null cell is an absent tag; values of different Haystack kinds (or quantities of different units) are incomparable: == false, != true, ordering false; Refs compare by name; literal kinds outside the Haystack filter grammar may be refused'),
  'C12': dict(
     text='spec/FilterGen.tla: the compile pipeline Tokenise->BuildAst->Emit->Exec->Eval with provenance-tagged source tokens; invariant PayloadOnlyInLiterals holds for the constants-table emitter and TLC must find the counterexample for the repr emitter (documented reason).  '
          'TLC generates shape x payload-position cases; each is instantiated with canary payloads and evaluated under an audit hook; audit events, canary flags, module-global diffs, grid snapshot, generated-code skeleton equality and foreign names in co_names are logged and judged by TLC (Trace_FilterGen.tla).',
@@ -112,7 +112,7 @@ CHECKS = {
     ref='DESIGN.md 5/C02', technique='TLA+ spec HJson (reader/writer over the tagged JSON tree) + TLC-judged round-trip equality; TLC layout plans',
     note='six-decimal quantisation Q6 of expected values is computed with exact decimals in Python (delegated float arithmetic); JSON text -> tree by json.loads strict'),
  'C05': dict(
-    text='spec/HJson.tla defines Enc(v, ver) as the set of legal trees (every spelling liberty) and Dec; MC_HJson model-checks Dec(Enc(v)) = v and prefix look-alike safety; TLC generates <<tree, denotation>> cases per kind x spelling x position x rows form; '
+    text='spec/HJson.tla defines Enc(v, ver) as the set of legal trees (every spelling liberty) and Dec; MC_HJson model-checks Dec(Enc(v)) = v and prefix look-alike safety; TLC generates <<tree, denotation>> cases per kind x spelling x position x rows form (rows missing / null / empty also one level down, in a nested grid; dicts that look like grids); '
          'each is fed to hszinc.parse in all input forms and Abs(result) compared with the denotation by TLC; the caller\'s pre-decoded object must be unchanged.',
     ref='DESIGN.md 5/C05', technique='TLA+ writer/reader spec HJson model-checked; TLC-generated JSON trees replayed into hszinc.parse; TLC-judged equality',
     note='top-level parse_scalar of JSON-looking text is the API contract and not judged; strings whose second character is ":" with an unknown prefix are strings'),
